@@ -4,6 +4,7 @@ import (
 	"fmt"
 	"os"
 	"path/filepath"
+	"sort"
 	"strings"
 	"time"
 )
@@ -67,6 +68,47 @@ func checkControls(rs []*RuleResult) []string {
 		_ = good
 	}
 	return broken
+}
+
+// runAll (development aid for the corpus tools, not a registered command): every claimed property's
+// quick check in one process, sharing the loaded programs. Prints "EXIT <id> <code>" per property.
+func runAll() int {
+	var ids []string
+	for id := range props {
+		ids = append(ids, id)
+	}
+	sort.Strings(ids)
+	ctl := loadProgram(ctlDir(), "ctl", 1)
+	c := loadProgram(repoDir(), mambaMod, 9)
+	worst := 0
+	for _, id := range ids {
+		code := 2
+		func() {
+			defer func() {
+				if r := recover(); r != nil {
+					if af, ok := r.(analysisFailure); ok {
+						fmt.Println("ANALYSIS-FAILURE:", af.msg)
+						return
+					}
+					panic(r)
+				}
+			}()
+			p := props[id]
+			o := &propOutcome{prop: id, tier: "quick", start: time.Now(), explanation: p.explanation, notDecided: p.notDecided, assumptions: p.assumptions, trusted: commonTrusted}
+			if p.controls != nil {
+				o.controls = p.controls(ctl)
+				o.broken = append(o.broken, checkControls(o.controls)...)
+			}
+			o.ctx = c
+			o.results = p.run(c, "quick")
+			code = o.finish()
+		}()
+		fmt.Printf("EXIT %s %d\n", id, code)
+		if code > worst {
+			worst = code
+		}
+	}
+	return worst
 }
 
 func runProperty(id, tier string, rest []string) int {
